@@ -4,7 +4,7 @@ CONSTANTS Design = "copy"
           Creation = "defaults"
           Modes = {"queue"}
           NRec = 2
-          Sizes = {1, 6, 20}
+          Sizes = {6, 20}
           Times = {1}
           MaxBufs = {0, 10}
           MaxWaits = {5}
@@ -15,6 +15,10 @@ CONSTANTS Design = "copy"
           Reconfig = 0
           EarlyFlush = FALSE
           WithDefaults = TRUE
-INVARIANTS ExactlyOnceInOrder CountMatches Decodable ZipIff DefaultsInForce HandedOverIsImmutable
+          Bad = TRUE
+          CtxKinds = {"ctx", "both"}
+          IdleSlack = 0
+          MinPeriod = 1
+INVARIANTS ExactlyOnceInOrder CountMatches Decodable ZipIff DefaultsInForce HandedOverIsImmutable IdleWaitBounded
 PROPERTIES FlushWhenDue
 CHECK_DEADLOCK FALSE
